@@ -611,6 +611,11 @@ int BaseKillPlugin::tryToKillPids(const std::vector<int>& pids) {
   int nrKilled = 0;
 
   for (int pid : pids) {
+    if (pid <= 0) {
+      // e.g. "0": a process outside our pid namespace. kill(0|-n) would signal
+      // our own process group or a whole group.
+      continue;
+    }
     auto commPath = std::string("/proc/") + std::to_string(pid) + "/comm";
     auto comm = Fs::readFileByLine(commPath);
 
